@@ -345,7 +345,10 @@ let infer_line l =
            Printf.sprintf "v%d=%s" (int_of_nat k) (match v with NNil -> "nil" | NNon -> "non" | NUnk -> "unk")) t) ^ "}")) ts) s.i_sets
      | _ -> print_endline "gave up / out of fuel")
   end;
-  print_endline (match infer f (nat fuel) with IInferred -> "I" | INotInferred -> "N" | INoFuel -> "F")
+  let b x = if x then "1" else "0" in
+  (* verdict, then: plain, wf, final state stable, infer_checked (what the soundness theorem covers) *)
+  print_endline ((match infer f (nat fuel) with IInferred -> "I" | INotInferred -> "N" | INoFuel -> "F")
+    ^ " " ^ b (plain f) ^ b (wf_fn f) ^ b (final_stable f (nat fuel)) ^ b (infer_checked f (nat fuel)))
 
 let () =
   let mode = if Array.length Sys.argv > 1 then Sys.argv.(1) else "engine" in
